@@ -146,8 +146,17 @@ func (w *yw) line(ind int, s string) {
 }
 
 func yq(s string) string {
-	b, _ := json.Marshal(s) // JSON string is a valid YAML double-quoted scalar
-	return string(b)
+	b, _ := json.Marshal(s) // a JSON string is a valid YAML double-quoted scalar …
+	// … except that YAML wants DEL and the C1 controls escaped too
+	var sb strings.Builder
+	for _, r := range string(b) {
+		if r == 0x7f || (r >= 0x80 && r <= 0x9f) {
+			fmt.Fprintf(&sb, "\\u%04x", r)
+		} else {
+			sb.WriteRune(r)
+		}
+	}
+	return sb.String()
 }
 
 func renderAtomConstraint(w *yw, ind int, a Atom) {
